@@ -862,7 +862,7 @@ def run_iid(ctx, cuqi, thorough):
             # scalar-vs-vector mixing: some parameters given as python scalars
             given = []
             for j, p in enumerate(pars):
-                if dim == 1 or (j > 0 and rs.rand() < 0.4 and fam != "laplace") or (fam == "laplace" and j == 1):
+                if dim == 1 or (j > 0 and rs.rand() < 0.4 and fam not in ("laplace", "uniform")) or (fam == "laplace" and j == 1):
                     pars[j] = np.full(dim, p[0]) if dim > 1 else p
                     given.append(float(p[0]))
                 else:
@@ -906,6 +906,7 @@ def run_iid(ctx, cuqi, thorough):
     outs = ctx.lean.drive(lines)
     for m, out in zip(metas, outs):
         fam, D, dim, N, desc, key = m["fam"], m["D"], m["dim"], m["N"], m["desc"], m["key"]
+        ndis0 = len(ctx.disagreements)
         ctx.case("iid-plumbing", desc)
         if m["err"] is not None or out.startswith("err") or out == "bad-op":
             ctx.disagree(key, desc, out[:60], m["err"], "refusal")
@@ -980,7 +981,8 @@ def run_iid(ctx, cuqi, thorough):
             with quiet():
                 Dj = cls(*pj)
             ctx.case("iid-law", {"family": fam, "params": pj})
-            law_oracle(ctx, Dj, f"iid:{fam}:law", {"family": fam, "params": pj})
+            # when the tie broke at this case the failing input (if any) is reported under the same key
+            law_oracle(ctx, Dj, key if len(ctx.disagreements) > ndis0 else f"iid:{fam}:law", {"family": fam, "params": pj})
         if dim > 1 and fam in ("invgamma", "beta", "cauchy"):
             # real scipy path with vector parameters: component j must follow the j-th parameters
             K = 5
